@@ -91,6 +91,8 @@ def obligation_failures(tr):
     for n, b in sorted(tr["obligations"].items()):
         if not b:
             bad.append("obligation %s = false" % n)
+    for f in ((tr.get("skel") or {}).get("inplace") or []):
+        bad.append("%s: in-place write into a stored byte slice: %s" % (f["where"], f["what"]))
     facts = (tr.get("skel") or {}).get("facts", {})
     for n, b in sorted(facts.items()):
         if not b:
@@ -670,6 +672,31 @@ def check_phase_dir(phase, d, tr, budget, stats, want_lin=True):
         viol += check_conservation(phase, ops, q)
     if want_lin and not any(v["kind"] == "server-crash" for v in viol):
         viol += check_linearizable(phase, ops, q, tr, d, budget, stats)
+    return viol
+
+
+def check_bigval(d, stats):
+    """bigval phase: every GET / GETRANGE / MGET reply of a key that only ever holds N copies of one
+    letter must itself be N copies of one letter (the reply is serialised after the lock is released)."""
+    viol = []
+    txt = (Path(d) / "result.txt").read_text().splitlines()
+    done = [l for l in txt if l.startswith("DONE")]
+    torn = [l for l in txt if l.startswith("TORN")]
+    m = None
+    ntorn = 0
+    for dl in done:
+        m = re.search(r"n=(\d+) reads=(\d+) writes=(\d+) torn=(\d+)", dl)
+        if m:
+            stats["ops_total"] += int(m.group(2)) + int(m.group(3))
+            stats["bigval_reads"] = stats.get("bigval_reads", 0) + int(m.group(2))
+            ntorn += int(m.group(4))
+    if done:
+        stats["phases"].append("bigval")
+    if torn or ntorn > 0:
+        viol.append(dict(kind="torn-reply", phase="bigval",
+                         workload="key holds N=%s bytes of one letter; 4 writers: SETRANGE k 0 <N x own letter> / SET k <N x own letter>; 4 readers: GET k / GETRANGE k 0 -1 / MGET k; reply serialised after the executor returned (as Manager.Handle does)" % (m.group(1) if m else "?"),
+                         replies=torn[:4], torn_total=ntorn,
+                         note="the reply mixes bytes of two different writes: a value the key never held (the reply aliases a stored slice that a writer modified in place)"))
     return viol
 
 
